@@ -117,7 +117,18 @@ Views5 == [i \in 1..Len(Depths) |-> Doc("view", Nest("{\"type\":\"container\",\"
           \o [i \in 1..Len(Depths) |-> Doc("view", Nest("{\"type\":\"flex\",\"children\":[{\"flex\":1,\"view\":", Leaf, "}," \o Leaf \o "]}", Depths[i] \div 4))]
           \o [i \in 1..Len(Depths) |-> Doc("view", Nest("{\"type\":\"tag\",\"tag\":0,\"view\":", "{\"type\":\"container\",\"child\":" \o Leaf \o "}", "}", Depths[i] \div 2))]
           \o << Doc("view", "[]"), Doc("view", "null"), Doc("view", "\"text\""), Doc("view", "{\"type\":\"text\",\"type\":\"flex\",\"text\":\"x\"}") >>
-Vec == Images1 \o Images2 \o Images3 \o Images4 \o Glyphs1 \o Glyphs2 \o Glyphs3 \o Text1 \o Text2 \o Text3 \o Text4 \o Views1 \o Views2 \o Views2b \o Views3 \o Views4 \o Views5
+\* image views of zero area whose other extent is huge (the image deserialiser accepts them: no pixel data is needed),
+\* alone, inside a container and as a flex child
+Extents == <<"0", "1", "2", "7", "4294967296", "4611686018427387904", "9223372036854775807", "9223372036854775808", "18446744073709551614", "18446744073709551615">>
+ImgView(t, h, w) == Obj(<<<<"type", t>>, <<"size", SizeOf(h, w)>>, <<"data", "\"\"">>, <<"channels", "1">>>>)
+Views6 == [i \in 1..(2 * Len(Extents) * 2 * 3) |->
+             LET t == <<"\"image\"", "\"image_ascii\"">>[((i - 1) % 2) + 1]  e == Extents[(((i - 1) \div 2) % Len(Extents)) + 1]
+                 tall == (((i - 1) \div (2 * Len(Extents))) % 2) = 0  wrap == (i - 1) \div (4 * Len(Extents))
+                 v == IF tall THEN ImgView(t, e, "0") ELSE ImgView(t, "0", e)
+             IN Doc("view", IF wrap = 0 THEN v
+                            ELSE IF wrap = 1 THEN "{\"type\":\"container\",\"margins\":{\"left\":1,\"top\":1},\"child\":" \o v \o "}"
+                            ELSE "{\"type\":\"flex\",\"direction\":\"vertical\",\"children\":[" \o Leaf \o ",{\"flex\":1,\"view\":" \o v \o "}," \o v \o "]}")]
+Vec == Images1 \o Images2 \o Images3 \o Images4 \o Glyphs1 \o Glyphs2 \o Glyphs3 \o Text1 \o Text2 \o Text3 \o Text4 \o Views1 \o Views2 \o Views2b \o Views3 \o Views4 \o Views5 \o Views6
 ASSUME ndJsonSerialize(IOEnv.OUT, Vec)
 ASSUME PrintT(<<"GENERATED", Len(Vec)>>)
 VARIABLE x
